@@ -394,7 +394,7 @@ func c06Seq(o *hx.Out, r *hx.Rng, nA, nB int) error {
 var c06Projs = []string{
 	".fullname@(X Y)", ".fullname@(Fib X/k=1)", "/k", "/k@(1 2)", "/k@(2)", ".name@(Fib X)", ".name", "goos@(linux darwin)",
 	"goos@(x)", "pkg", ".fullname", "/gomaxprocs@(8 4)", "/gomaxprocs", "/j@(a)", `"a b"@("x y")`, ".config", ".fullname@(\"*\" \"*/k=1\")",
-	"goarch@(\"\")", "/k@fixed", ".fullname@(Fib/k=1 Fib-8 A-b)",
+	"goarch@(\"\")", "/k@(zz)", ".fullname@(Fib/k=1 Fib-8 A-b)", // "/k@(zz)": a list no value is in (key@fixed is rejected since 9f4ec2f)
 }
 
 func c06Fixed(o *hx.Out, r *hx.Rng, n int) error {
